@@ -100,7 +100,7 @@ def scenario_schedules(seed, salt, reps=1):
                                    "defect": defect, "seed": r.randrange(1 << 30), "to": r.sample(hon, 2)}, tail(steps=80)])
         # E. Byzantine leader of round 3 (member 3); member 0 holds a prepared certificate from round 1, everybody timed out
         #    twice: PRE-PREPAREs for round 3 whose justification is almost right (each defect, both proposed values)
-        for defect in range(10):
+        for defect in range(12):
             for v in (1, 2):
                 hon = [0, 1, 2]
                 pre = [config_step(4, 0, [3])] + [{"ev": "Start", "p": p} for p in hon] + \
@@ -128,6 +128,25 @@ def scenario_schedules(seed, salt, reps=1):
                   [S("C", d, 1, ldr)] + [{"ev": "Timeout", "p": d}] + [S("RC", d, 2, p) for p in rest[:2]] + \
                   [{"ev": "Timeout", "p": p} for p in rest[(rep % 2):]]
             out.append(pre + [tail(byz=False, steps=120)])
+        # H. votes for the EMPTY value: the adversary's PREPARE / COMMIT with value 0 reaches a member that holds quorum-1
+        #    honest PREPAREs / COMMITs for the proposed value (before, between and after them)
+        for when in range(3):
+            for inst in (0, 2):
+                ldr = (inst + 1) % 4
+                b = (ldr + 1 + when) % 4
+                if b == ldr:
+                    b = (b + 1) % 4
+                hon = [p for p in range(4) if p != b]
+                vic = hon[(when + inst) % 3]
+                oth = [p for p in hon if p != vic]
+                Z = lambda k: {"ev": "ByzCraft", "kind": k, "b": b, "r": 1, "v": 0, "vals": [1, 2], "defect": 0, "seed": 1, "to": [vic] + oth[:when % 2]}
+                pre = [config_step(4, inst, [b])] + [{"ev": "Start", "p": p} for p in hon] + \
+                      [{"ev": "Input", "p": p, "v": 1 + (p % 2)} for p in hon] + [S("PP", ldr, 1, p) for p in hon]
+                pre += ([Z("votep")] if when == 0 else []) + [S("P", oth[0], 1, vic)] + ([Z("votep")] if when == 1 else []) + \
+                       [S("P", vic, 1, vic)] + ([Z("votep")] if when == 2 else []) + [S("P", q, 1, p) for p in hon for q in hon]
+                pre += ([Z("votec")] if when == 0 else []) + [S("C", oth[0], 1, vic)] + ([Z("votec")] if when == 1 else []) + \
+                       [S("C", vic, 1, vic)] + ([Z("votec")] if when == 2 else [])
+                out.append(pre + [tail(steps=80)])
         # G. cluster sizes where 2f+1 < quorum (n = 5, 6): a Byzantine member sends DECIDED certificates of every defect kind
         #    (among them: one COMMIT short of the quorum, i.e. exactly 2f+1) while only SOME honest members have committed
         for n in (5, 6):
